@@ -13,3 +13,7 @@ opaque_method("CombClass", "is_empty", Bool)
 
 # term providers handed to constructors: subterms[i](m) / parent_terms(m); the value of a Fun is the provider's id
 provider("terms", args=[Int], arg_names=["m"], returns=TermsT)
+
+# Terms (a Counter[Parameters]) stored in the per-rule caches: treated as immutable values once cached
+opaque_method("Terms", "__getitem__", Int, args=[Seq(Int)])
+opaque_attr("CombClass", "extra_parameters", Seq(Str))
